@@ -69,6 +69,16 @@ def handmade(minor):
     l = copy.deepcopy(b); l['cells'].insert(0, _code(minor, 'x = 1\ny = 2\nz = 3\nprint(x)\n', 1))
     r = copy.deepcopy(b); r['cells'].insert(0, _code(minor, 'x = 1\ny = 2\nz = 3\nprint(y)\n', 2, metadata={'tags': ['t']}))
     out.append(('insert_insert_similar', b, l, r))
+    # similar concurrent inserts that also differ in execution count / outputs
+    so = {'output_type': 'stream', 'name': 'stdout', 'text': '1\n'}
+    l = copy.deepcopy(b); l['cells'].insert(0, _code(minor, 'x = 1\ny = 2\nz = 3\nprint(x)\n', 1, outputs=[so], ec=1))
+    r = copy.deepcopy(b); r['cells'].insert(0, _code(minor, 'x = 1\ny = 2\nz = 3\nprint(y)\n', 2, outputs=[dict(so, text='2\n')], ec=2))
+    out.append(('insert_insert_similar_ran', b, l, r))
+    # both sides make the "same" change up to the JSON number type (agreement under Python ==)
+    ba = _nb(minor, [_code(minor, 'x\n', 0, metadata={'k': 0, 'f': False})], md={'k': 0})
+    l = copy.deepcopy(ba); l['cells'][0]['metadata'].update({'k': 1, 'f': 1}); l['metadata']['k'] = 1
+    r = copy.deepcopy(ba); r['cells'][0]['metadata'].update({'k': 1.0, 'f': True}); r['metadata']['k'] = True
+    out.append(('agree_up_to_number_type', ba, l, r))
     # source conflict
     b2 = _nb(minor, [_code(minor, 'a = 1\nb = 2\n', 0)])
     l = copy.deepcopy(b2); l['cells'][0]['source'] = 'a = 10\nb = 2\n'
@@ -88,6 +98,15 @@ def handmade(minor):
     l = copy.deepcopy(b4); l['cells'][0]['metadata']['k'] = 2; l['metadata']['k'] = 2
     r = copy.deepcopy(b4); r['cells'][0]['metadata']['k'] = 3; r['metadata']['k'] = 3
     out.append(('metadata_metadata', b4, l, r))
+    # conflicts on the schema-constrained ("transient") cell metadata flags
+    b7 = _nb(minor, [_code(minor, 'x\n', 0, metadata={'scrolled': False, 'collapsed': False, 'tags': ['a'], 'name': 'n'})])
+    l = copy.deepcopy(b7); l['cells'][0]['metadata'].update({'scrolled': True, 'tags': ['a', 'l'], 'name': 'nl'})
+    r = copy.deepcopy(b7); r['cells'][0]['metadata'].update({'scrolled': 'auto', 'tags': ['a', 'r'], 'name': 'nr'})
+    out.append(('metadata_constrained_keys', b7, l, r))
+    b8 = _nb(minor, [_code(minor, 'x\n', 0)])
+    l = copy.deepcopy(b8); l['cells'][0]['metadata'] = {'collapsed': True, 'scrolled': True}
+    r = copy.deepcopy(b8); r['cells'][0]['metadata'] = {'collapsed': False, 'scrolled': 'auto'}
+    out.append(('metadata_flags_added_both', b8, l, r))
     # attachment conflict -> LOCAL_/REMOTE_ renaming
     att = {'image.png': {'image/png': 'AAAA'}}
     b5 = _nb(minor, [_md(minor, '![i](attachment:image.png)\n', 0, attachments=att)])
@@ -163,12 +182,36 @@ def upgrade_triple(r):
     for c in up['cells']: c['id'] = gennb.gen_id(r, used)
     other = copy.deepcopy(b); other['nbformat_minor'] = r.choice([m for m in (0, 1, 2, 3, 4) if m >= bm])
     i = r.randrange(len(b['cells']))
-    other['cells'][i]['source'] = gennb.edit_source_text(r, other['cells'][i]['source'], other['cells'][i]['cell_type'])
+    other['cells'][i]['source'] = other['cells'][i]['source'] + ('' if other['cells'][i]['source'].endswith('\n') or not other['cells'][i]['source'] else '\n') + 'appended = 1\n'
     if r.random() < 0.5:
         j = r.randrange(len(b['cells']))
         up['cells'][j]['source'] = gennb.edit_source_text(r, up['cells'][j]['source'], up['cells'][j]['cell_type'])
     if r.random() < 0.5: return ('upgrade45:local', b, up, other)
     return ('upgrade45:remote', b, other, up)
+
+
+def multi_insert_triple(r, minor=None):
+    """both sides insert runs of cells at the same position; some remote cells are near-copies of local ones, surrounded
+    by unmatched cells on either side (exercises the pairing of similar concurrent inserts)"""
+    minor = r.choice([3, 4, 5, 5]) if minor is None else minor
+    b = gennb.gen_notebook(r, minor=minor, ncells=r.choice([0, 1, 2, 3]), rich=False)
+    used = gennb.used_ids(b)
+    pos = r.randint(0, len(b['cells']))
+    L = [gennb.gen_cell(r, minor, used, rich=False) for _ in range(r.choice([1, 1, 2, 3]))]
+    R = []
+    for c in L:
+        for _ in range(r.choice([0, 0, 1, 2])): R.append(gennb.gen_cell(r, minor, used, rich=False))
+        if r.random() < 0.75:
+            c2 = copy.deepcopy(c)
+            if 'id' in c2: c2['id'] = gennb.gen_id(r, used)
+            c2['source'] = c2['source'] + ('' if c2['source'].endswith('\n') or not c2['source'] else '\n') + r.choice(['# remote tweak\n', 'extra = 2\n'])
+            R.append(c2)
+    for _ in range(r.choice([0, 1, 1, 2])): R.append(gennb.gen_cell(r, minor, used, rich=False))
+    if not R: R.append(gennb.gen_cell(r, minor, used, rich=False))
+    l = copy.deepcopy(b); rm = copy.deepcopy(b)
+    l['cells'][pos:pos] = copy.deepcopy(L); rm['cells'][pos:pos] = R
+    if r.random() < 0.5: l, rm = rm, l
+    return ('multiinsert@4.%d' % minor, b, l, rm)
 
 
 def gen_triples(r, n, repo, minors_mix=0.15):
@@ -177,6 +220,7 @@ def gen_triples(r, n, repo, minors_mix=0.15):
     for k in range(6): out += [('hand:%s@4.%d' % (nm, k), b, l, rm) for nm, b, l, rm in handmade(k)]
     out += fixture_triples(repo)
     for _ in range(max(6, n // 12)): out.append(upgrade_triple(r))
+    for _ in range(max(10, n // 8)): out.append(multi_insert_triple(r))
     i = 0
     while len(out) < n:
         minor = r.choice([0, 1, 2, 3, 4, 4, 5, 5, 5])
@@ -185,4 +229,4 @@ def gen_triples(r, n, repo, minors_mix=0.15):
         if minor < 5 and r.random() < minors_mix:
             b, l, rm = vary_minors(r, b, l, rm); name += '+minors%d%d%d' % (b['nbformat_minor'], l['nbformat_minor'], rm['nbformat_minor'])
         out.append((name, b, l, rm)); i += 1
-    return out[:max(n, 48)]
+    return out[:max(n, 72)]
